@@ -438,8 +438,12 @@ def run_property(prop, tier="quick", seed=0, only=None, jobs=None,
                              for x in o.id.replace("C", "").split(".")])
     joblist = []
     for o in obls:
-        for sh in o.shapes(tier):
-            joblist.append((o.id, sh, tier, seed))
+        # an obligation shared with another property ("also") is explored at
+        # thorough depth under its home property only; elsewhere it runs with
+        # its quick shapes (stated in the evidence as shared_at_quick_depth)
+        t = tier if (o.prop == prop or tier == "quick") else "quick"
+        for sh in o.shapes(t):
+            joblist.append((o.id, sh, t, seed))
     # longest-looking jobs first does not matter much; keep stable order
     nproc = jobs or int(os.environ.get("VERIF_JOBS", "0")) or \
         min(16, os.cpu_count() or 4)
@@ -577,6 +581,9 @@ def summarise(prop, tier, seed, obls, results, wall):
                                reason=(r["detail"] or {}).get("reason"))
                           for r in inc],
             known_findings_seen=sorted(known_hits),
+            shared_at_quick_depth=sorted(
+                o.id for o in obls if o.prop != prop) if tier != "quick"
+            else [],
             slowest=[dict(obligation=r["obligation"], shape=r["shape"],
                           wall_s=round(r["wall_s"], 1), paths=r["paths"])
                      for r in sorted(results, key=lambda r: -r["wall_s"])[:12]],
